@@ -24,6 +24,7 @@ PROPS = {
             {"kind": "verus", "unit": "tail"},
             {"kind": "verus", "unit": "budget"},
             {"kind": "verus", "unit": "seqsearch"},
+            {"kind": "verus", "unit": "timeout"},
         ],
         "unreached": [
             "the searching builtins other than the scan loops of sequence take_while / skip_until (nth, generator consumers, find ...): that each consumes one permit per element examined",
@@ -32,6 +33,22 @@ PROPS = {
         ],
         "assumptions": ["an evaluation performs fewer than 2^64 consecutive tail calls / nested frames (usize counters)",
                         "V-budget: std's repeat_with / take / chain / once, either::Either and Zip by their documented meaning (stream model: length and item at each index); V-seqsearch: iterator model of V-derive, the budget stream restated for finite streams (budget_shape)"],
+    },
+    "C10": {
+        "level": "other",
+        "explanation": "Narrow claim on three mechanisms, each decided by a Verus contract on real text. (1) Runtime::check_timeout answers the Timeout violation exactly when the configured deadline is not after the clock reading it takes (with V-tail, claimed under C07/C08, proving that the trampoline performs this check before any frame of a user function is built: once the time limit has elapsed no further user-function call begins). (2) With a search limit configured the search budget is a FINITE stream ending in a violation, so every loop that draws one item per step and stops at the violation terminates within the limit. (3) The numeric loop of `digits` terminates (decreases |n|, proved) and its divisions are defined. NOT decided: that every native loop and every internally iterating adaptor (chain collect, repeat/flatten, group, windows, product, multinom) draws on the budget or is otherwise bounded -- a claim about all natives, listed as unreached.",
+        "units": [
+            {"kind": "verus", "unit": "timeout"},
+            {"kind": "verus", "unit": "budgetfin"},
+            {"kind": "verus", "unit": "digits"},
+        ],
+        "unreached": [
+            "that each searching / iterating native consumes one budget item per unit of work (only the scan loops of sequence take_while / skip_until are under contract, under C08/C15)",
+            "adaptors that iterate internally: chain (collect of each part), repeat / flatten, group, windows, product; binom / multinom loops (range-bounded `for` loops; multinom not under contract)",
+            "the proportionality (complexity) part of the statement: no contract here bounds the amount of work, only termination of the loops listed",
+        ],
+        "assumptions": ["std::time::Instant as a point on the integer line; Instant::now() as a ghost-logged reading (R-state)",
+                        "std's repeat_with / take / chain / once and either::Either by their documented meaning (stream model)"],
     },
     "C06": {
         "level": "other",
@@ -204,6 +221,12 @@ CLAIMS = {
         "text": "Each limit primitive of src/runtime.rs is checked against its one-step contract for every value of the counter and of the limit (loop-free harness over full-width symbolic scalars = complete proof of that function's contract); the trampoline is proved to count the user call and check the timeout exactly once before any frame is built and to fail with MaximumRecursion exactly when the tail-call count exceeds the limit; the frame height and the depth test are proved as stated. The search budget is proved to be exactly L permits followed by one MaximumSearch violation (endless without a limit), `search` to pair the k-th element with the k-th budget item, and the scan loops of sequence take_while / skip_until to consume a permit before each element they examine.",
         "note": "Decides the counters, their reset, the budget stream and two scan loops; that every call path goes through them is argued from visibility, not proved. Trusted: Kani/CBMC, the in-crate build substitutions.",
     },
+    "C10": {
+        "engine": "vx+verus",
+        "technique": "contract-based deductive verification: Verus contracts on the real text of Runtime::check_timeout (ghost clock), RuntimeLimits::search_iter (stream model of std's adaptors) and the digit loop of the `digits` builtin (termination by a decreases clause)",
+        "text": "Narrow (three mechanisms): check_timeout is proved to answer Timeout exactly when the deadline is not after the clock reading it takes; with a search limit the search budget is proved to be a finite stream ending in the MaximumSearch violation; the digit loop is proved to terminate (|n| decreases) with its divisions defined.",
+        "note": "Termination and the timeout test only; that every native loop draws on a limit, and the proportionality of the work, are listed as unreached.",
+    },
     "C06": {
         "engine": "vx+verus",
         "technique": "contract-based deductive verification: Verus contracts on the real early-return macros and on the forwarding prefixes of generator adaptor closures (ghost log of the callback's answer); enumeration of every Result-inspection site",
@@ -266,7 +289,6 @@ _NA = {
     "C03": "inductive invariant relating compile-time (depth, cell) pairs to run-time scope chains; the run-time side calls the evaluator (out of Kani's reach) and the interner uses regex",
     "C04": "property of XType::bind_in_assignment / common_type: same measured obstacle as C01",
     "C05": "property of CompilationScope::resolve_overload over XType/Bind: same measured obstacle as C01",
-    "C10": "termination / complexity claim over every native loop and lazy iterator tower; Kani proves no termination and the loops are inside native closures behind dyn Fn",
     "C12": "claim about the pest-generated parser on all texts; the number-literal code is an inline arm of a 370-line function over pest pairs",
     "C17": "every operation evaluates the user's hash and equality through the evaluator (dyn Fn natives, out of reach), the containers use HashMap entry/closures outside Verus' dialect",
     "C20": "dates, fractions and JSON serialisation are written in the xray language (include.rs), for which no deductive verifier exists; the Rust remainder is delegated to serde_json / num-bigint",
